@@ -905,4 +905,267 @@ theorem walk_details (t : Tbl) (by_ : SortBy)
     | name => simp only [nextCursor]; rw [if_neg (detailOK_cstr_ne _ e hok)]
     | cls => rfl
 
+/-! ### the class listings: slot order, paged by bid -/
+
+theorem takeWhile_const_true (l : List Entry) : l.takeWhile (fun _ => true) = l := by
+  induction l with
+  | nil => rfl
+  | cons a r ih => simp [List.takeWhile_cons, ih]
+
+theorem takeWhile_nostop (l : List Entry) : l.takeWhile (fun e => !((fun _ => false) e)) = l := by
+  simpa using takeWhile_const_true l
+
+theorem windowG_nostop_asc (ok : Entry → Bool) (es : List Entry) (k : Nat) :
+    windowG ok es (fun _ => false) true k = (es.drop k).filter ok := by
+  unfold windowG oriented
+  simp [takeWhile_const_true]
+
+/-- the client loop over `next_bid`: if the page from bid 1 and the page from the bid of every entry of `V` are the
+corresponding windows of `V`, the walk returns `V` cut into pages, and ends. -/
+theorem walkBid_pages (load : Int → R Page) (V : List Entry) (n : Nat) (hn : 1 ≤ n)
+    (H1 : ∀ m (hm : m < V.length), load (Int.ofNat V[m].bid + 1) = .ok ⟨(V.drop m).take n, (V.drop m)[n]?⟩) :
+    ∀ fuel m b, m ≤ V.length → (V.length - m) + 1 ≤ fuel →
+      load b = .ok ⟨(V.drop m).take n, (V.drop m)[n]?⟩ →
+      walkBid load fuel b = .ok (pagesOf n (V.length - m) (V.drop m)) := by
+  intro fuel
+  induction fuel with
+  | zero => intro m b _ hf; omega
+  | succ f ih =>
+    intro m b hm hf hload
+    unfold walkBid
+    rw [hload]
+    simp only [bind, Except.bind]
+    by_cases hlast : (V.drop m).length ≤ n
+    · have hnone : (V.drop m)[n]? = none := List.getElem?_eq_none hlast
+      rw [hnone]
+      simp only [pure, Except.pure]
+      rw [List.take_of_length_le hlast]
+      cases hk : V.length - m with
+      | zero => simp [pagesOf]
+      | succ k => unfold pagesOf; rw [if_pos hlast]
+    · have hlen : (V.drop m).length = V.length - m := by simp
+      have hmn : m + n < V.length := by omega
+      have hsome : (V.drop m)[n]? = some V[m + n] := by
+        rw [List.getElem?_drop, List.getElem?_eq_getElem hmn]
+      rw [hsome]
+      simp only
+      rw [ih (m + n) _ (by omega) (by omega) (H1 (m + n) hmn)]
+      simp only [pure, Except.pure]
+      congr 1
+      cases hk : V.length - m with
+      | zero => omega
+      | succ k =>
+        have e : pagesOf n (k + 1) (V.drop m) = (V.drop m).take n :: pagesOf n k ((V.drop m).drop n) := by
+          rw [pagesOf, if_neg hlast]
+        rw [e, List.drop_drop]
+        congr 1
+        apply pagesOf_fuel n hn
+        · simp
+        · simp; omega
+
+/-- paging bbs.LoadFullClassBoards through `next_bid`: every class of the board table — in whichever slot it sits,
+the last one included — exactly once, in slot order. -/
+theorem walkFullClass_eq (maxBoard : Nat) (slots : List Entry) (hb : ∀ i (h : i < slots.length), slots[i].bid = i)
+    (hlen : slots.length ≤ maxBoard) (hmb : 1 ≤ maxBoard) (n : Nat) (h1 : 1 ≤ n) :
+    walkFullClass maxBoard slots (n : Int) =
+      .ok (pagesOf n (slots.filter isClass).length (slots.filter isClass)) := by
+  have hvalid : ∀ p : Nat, p < max slots.length 1 →
+      ¬ ¬ (1 ≤ (Int.ofNat p + 1) ∧ (Int.ofNat p + 1) ≤ Int.ofNat maxBoard) := by
+    intro p hp; simp only [Int.ofNat_eq_natCast]; omega
+  have := walkBid_pages (fun b => loadFullClass maxBoard slots b (n : Int)) (slots.filter isClass) n h1 ?_
+    (walkFuel slots.length) 0 1 (Nat.zero_le _) ?_ ?_
+  · simpa [walkFullClass] using this
+  · intro m hm
+    obtain ⟨p, hp, h1', h2⟩ := filter_position isClass slots m hm
+    rw [← h1', hb p hp]
+    show loadFullClass maxBoard slots (Int.ofNat p + 1) (n : Int) = _
+    unfold loadFullClass
+    rw [if_neg (hvalid p (by omega))]
+    have := pttLoadG_at isClass slots (fun _ => false) p hp n true
+    simp only [opos, if_true] at this
+    rw [liftM_ok _ _ this, windowG_nostop_asc, h2]
+  · have := List.length_filter_le isClass slots
+    unfold walkFuel; omega
+  · show loadFullClass maxBoard slots 1 (n : Int) = _
+    unfold loadFullClass
+    have hv1 : ¬ ¬ ((1 : Int) ≤ 1 ∧ (1 : Int) ≤ Int.ofNat maxBoard) := by
+      simp only [Int.ofNat_eq_natCast]; omega
+    rw [if_neg hv1]
+    have := pttLoadG_first isClass slots (fun _ => false) n true
+    simp only [if_true] at this
+    rw [liftM_ok _ _ this, windowG_nostop_asc]
+    simp
+
+/-! ### bbs.LoadClassBoards: histories of requests on one table -/
+
+/-- the sub-classes of a class: what LoadClassBoards must return. -/
+def subclasses (t : Tbl) (links : List (Nat × Nat)) (c : Int) (by' : SortBy) : List Entry :=
+  (childrenOf t links c by').filter isClass
+
+def byOf (c : Int) (by_ : SortBy) : SortBy := if c = 1 then SortBy.cls else by_
+
+def SameGids (a b : List (Nat × Nat)) : Prop := ∀ j, (a.getD j (0, 0)).1 = (b.getD j (0, 0)).1
+
+theorem childrenOf_congr (t : Tbl) (a b : List (Nat × Nat)) (h : SameGids a b) (c : Int) (by' : SortBy) :
+    childrenOf t a c by' = childrenOf t b c by' := by
+  unfold childrenOf
+  apply List.filter_congr
+  intro e _
+  rw [h e.bid]
+
+theorem getD_set (l : List (Nat × Nat)) (i j : Nat) (v : Nat × Nat) :
+    (l.set i v).getD j (0, 0) = if i = j ∧ i < l.length then v else l.getD j (0, 0) := by
+  simp only [List.getD_eq_getElem?_getD, List.getElem?_set]
+  by_cases h : i = j
+  · subst h
+    by_cases hl : i < l.length
+    · simp [hl]
+    · simp [hl]
+  · simp [h]
+
+theorem sameGids_setChildCount (st : ClsState) (i c : Nat) : SameGids (st.setChildCount i c).links st.links := by
+  intro j
+  unfold ClsState.setChildCount
+  simp only [getD_set]
+  split
+  · rename_i h; rw [← h.1]
+  · rfl
+
+theorem childCount_setChildCount (st : ClsState) (i c j : Nat) :
+    (st.setChildCount i c).childCount j = if i = j ∧ i < st.links.length then c else st.childCount j := by
+  unfold ClsState.setChildCount ClsState.childCount
+  simp only [getD_set]
+  split <;> rfl
+
+theorem markFirst_links (st : ClsState) (i : Nat) (b : SortBy) : (st.markFirst i b).links = st.links := by
+  cases b <;> rfl
+
+theorem markFirst_childCount (st : ClsState) (i j : Nat) (b : SortBy) : (st.markFirst i b).childCount j = st.childCount j := by
+  cases b <;> rfl
+
+theorem firstSet_setChildCount (st : ClsState) (i c j : Nat) (b : SortBy) :
+    (st.setChildCount i c).firstSet j b = st.firstSet j b := by cases b <;> rfl
+
+theorem firstSet_markFirst_ne (st : ClsState) (i j : Nat) (b b' : SortBy) (h : i ≠ j) :
+    (st.markFirst i b).firstSet j b' = st.firstSet j b' := by
+  cases b <;> cases b' <;> simp [ClsState.markFirst, ClsState.firstSet, List.getD_eq_getElem?_getD, List.getElem?_set, h]
+
+/-- every class whose child links are in place has the right `ChildCount` (or 0, which forces a new resolve). -/
+def ClsInv (t : Tbl) (st : ClsState) : Prop :=
+  ∀ (c : Int) (b : SortBy), 1 ≤ c → st.firstSet (c - 1).toNat b = true →
+    st.childCount (c - 1).toNat = 0 ∨ ∀ b', st.childCount (c - 1).toNat = (childrenOf t st.links c b').length
+
+theorem clsInv_fresh (t : Tbl) (links : List (Nat × Nat)) : ClsInv t (ClsState.fresh links) := by
+  intro c b _ h
+  exfalso
+  revert h
+  generalize (c - 1).toNat = i
+  intro h
+  cases b <;>
+    (simp only [ClsState.fresh, ClsState.firstSet, List.getD_eq_getElem?_getD, List.getElem?_map] at h
+     cases hh : links[i]? <;> simp [hh] at h)
+
+/-- one request: the complete list of sub-classes, and the invariant is kept. -/
+theorem loadClassBoards_step (t : Tbl) (st : ClsState) (c : Int) (by_ : SortBy)
+    (hv : 1 ≤ c ∧ c ≤ Int.ofNat t.maxBoard) (hi : (c - 1).toNat < st.links.length)
+    (hlen : ∀ c' b b', (childrenOf t st.links c' b).length = (childrenOf t st.links c' b').length)
+    (I : ClsInv t st) :
+    ∃ st', loadClassBoards t st c by_ = .ok (subclasses t st.links c (byOf c by_), st') ∧ ClsInv t st' ∧
+      SameGids st'.links st.links ∧ st'.links.length = st.links.length := by
+  obtain ⟨i, hidef⟩ : ∃ i, i = (c - 1).toNat := ⟨_, rfl⟩
+  obtain ⟨b', hb'⟩ : ∃ b', b' = byOf c by_ := ⟨_, rfl⟩
+  obtain ⟨ch, hch⟩ : ∃ ch, ch = childrenOf t st.links c b' := ⟨_, rfl⟩
+  have hsub : (ch.filter isClass).length ≤ ch.length := List.length_filter_le _ _
+  have hgather : ∀ cap, ch.length ≤ cap → gather (fun _ => false) isClass ch (cap + 5) = ch.filter isClass := by
+    intro cap hcap
+    rw [gather_eq, takeWhile_nostop]
+    exact List.take_of_length_le (by omega)
+  unfold loadClassBoards
+  rw [if_neg (by simpa using hv)]
+  simp only [pure, Except.pure]
+  rw [← hidef]
+  have hby : (if c = 1 then SortBy.cls else by_) = b' := by rw [hb']; rfl
+  rw [hby, ← hch]
+  by_cases hres : (!st.firstSet i b' || st.childCount i == 0) = true
+  · -- ResolveBoardGroup
+    rw [if_pos hres]
+    obtain ⟨s1, hs1⟩ : ∃ s1, s1 = (if ch.isEmpty then st.setChildCount i ch.length
+        else (st.setChildCount i ch.length).markFirst i b') := ⟨_, rfl⟩
+    rw [← hs1]
+    have hcc1 : s1.childCount i = ch.length := by
+      rw [hs1]; split
+      · rw [childCount_setChildCount, if_pos ⟨rfl, by rw [hidef]; exact hi⟩]
+      · rw [markFirst_childCount, childCount_setChildCount, if_pos ⟨rfl, by rw [hidef]; exact hi⟩]
+    have hl1 : s1.links = (st.setChildCount i ch.length).links := by
+      rw [hs1]; split
+      · rfl
+      · exact markFirst_links _ _ _
+    rw [hcc1, hgather ch.length (Nat.le_refl _), if_neg (by omega)]
+    have hsg : SameGids s1.links st.links := by rw [hl1]; exact sameGids_setChildCount st i ch.length
+    refine ⟨s1, by rw [hch, hb']; rfl, ?_, hsg, by rw [hl1]; simp [ClsState.setChildCount]⟩
+    -- the invariant
+    intro c2 b2 hc2 hf2
+    by_cases hci : (c2 - 1).toNat = i
+    · right
+      intro b3
+      have hc : c2 = c := by omega
+      rw [hci, hcc1, hc, childrenOf_congr t s1.links st.links hsg, hch]
+      exact hlen c b' b3
+    · have hcc : s1.childCount (c2 - 1).toNat = st.childCount (c2 - 1).toNat := by
+        rw [hs1]; split
+        · rw [childCount_setChildCount, if_neg (fun h => hci h.1.symm)]
+        · rw [markFirst_childCount, childCount_setChildCount, if_neg (fun h => hci h.1.symm)]
+      have hff : s1.firstSet (c2 - 1).toNat b2 = st.firstSet (c2 - 1).toNat b2 := by
+        rw [hs1]; split
+        · exact firstSet_setChildCount _ _ _ _ _
+        · rw [firstSet_markFirst_ne _ _ _ _ _ (fun h => hci h.symm)]; exact firstSet_setChildCount _ _ _ _ _
+      rw [hff] at hf2
+      rw [hcc]
+      rcases I c2 b2 hc2 hf2 with h | h
+      · left; exact h
+      · right; intro b3; rw [childrenOf_congr t s1.links st.links hsg]; exact h b3
+  · -- the links are in place and ChildCount is not 0
+    rw [if_neg hres]
+    have hfs : st.firstSet i b' = true := by
+      cases h : st.firstSet i b' <;> simp [h] at hres ⊢
+    have hcc0 : st.childCount i ≠ 0 := by
+      intro h; simp [h] at hres
+    have hcceq : st.childCount i = ch.length := by
+      rcases I c b' hv.1 (by rw [← hidef]; exact hfs) with h | h
+      · rw [← hidef] at h; exact absurd h hcc0
+      · rw [hidef, hch]; exact h b'
+    rw [hcceq, hgather ch.length (Nat.le_refl _), if_neg (by omega)]
+    exact ⟨st, by rw [hch, hb']; rfl, I, fun _ => rfl, rfl⟩
+
+/-- a history of requests on one (unchanging) table. -/
+def runCalls (t : Tbl) : ClsState → List (Int × SortBy) → R (List (List Entry))
+  | _, [] => pure []
+  | st, (c, b) :: rest => do
+    let (l, st') ← loadClassBoards t st c b
+    let ls ← runCalls t st' rest
+    pure (l :: ls)
+
+theorem runCalls_eq (t : Tbl) (links : List (Nat × Nat)) (st : ClsState) (calls : List (Int × SortBy))
+    (hsg : SameGids st.links links) (hl : st.links.length = links.length)
+    (hv : ∀ cb ∈ calls, 1 ≤ cb.1 ∧ cb.1 ≤ Int.ofNat t.maxBoard ∧ (cb.1 - 1).toNat < links.length)
+    (hlen : ∀ c' b b', (childrenOf t links c' b).length = (childrenOf t links c' b').length)
+    (I : ClsInv t st) :
+    runCalls t st calls = .ok (calls.map fun cb => subclasses t links cb.1 (byOf cb.1 cb.2)) := by
+  induction calls generalizing st with
+  | nil => rfl
+  | cons cb rest ih =>
+    obtain ⟨c, b⟩ := cb
+    have hv0 := hv (c, b) (by simp)
+    have hlen' : ∀ c' b b', (childrenOf t st.links c' b).length = (childrenOf t st.links c' b').length := by
+      intro c' b1 b2
+      rw [childrenOf_congr t st.links links hsg, childrenOf_congr t st.links links hsg]; exact hlen c' b1 b2
+    obtain ⟨st', h1, I', hsg', hl'⟩ := loadClassBoards_step t st c b ⟨hv0.1, hv0.2.1⟩ (by rw [hl]; exact hv0.2.2) hlen' I
+    unfold runCalls
+    rw [h1]
+    simp only [bind, Except.bind]
+    rw [ih st' (fun j => (hsg' j).trans (hsg j)) (hl'.trans hl) (fun cb hcb => hv cb (by simp [hcb])) I']
+    simp only [pure, Except.pure, List.map_cons]
+    unfold subclasses
+    rw [childrenOf_congr t st.links links hsg]
+
 end PttVerif.C11
